@@ -9,6 +9,7 @@ import (
 	"fmt"
 	"math/rand"
 	"strings"
+	"sync"
 	"time"
 
 	"github.com/awalterschulze/gominikanren/gomini"
@@ -164,7 +165,11 @@ type gbEq struct {
 }
 
 func genGBCase(r *rand.Rand) (ni, nb int, eqs []gbEq) {
-	ni, nb = 1+r.Intn(3), r.Intn(2)
+	return genGBCaseWith(r, 1+r.Intn(3), r.Intn(2))
+}
+
+func genGBCaseWith(r *rand.Rand, ni0, nb0 int) (ni, nb int, eqs []gbEq) {
+	ni, nb = ni0, nb0
 	slot := func(depth int) *gbv { return nil }
 	var rec func(depth int) *gbv
 	slot = func(depth int) *gbv {
@@ -277,4 +282,70 @@ func runGBCase(rep *Report, idx int, r *rand.Rand) (string, string, string) {
 		rep.violate(idx, "depends-on-placeholder-contents", desc, obs)
 	}
 	return desc, obs, fmt.Sprintf("CGSeq %s %d", coqList(ceqs), ns[0])
+}
+
+// sharedStateConcurrent: gomini's disjunctions and conjunctions run their branches concurrently on ONE *State, so EqualO on a
+// shared state from several goroutines at once must give what it gives alone: a state is an immutable value.  A set of
+// independent equations over one world is decided sequentially, then again from 8 goroutines in different orders.
+func sharedStateConcurrent(rep *Report, idx int, r *rand.Rand) {
+	ni, nb, _ := genGBCase(r)
+	var eqs []gbEq
+	for len(eqs) < 10 {
+		_, _, more := genGBCaseWith(r, ni, nb)
+		eqs = append(eqs, more...)
+	}
+	// plus the two extremes: a variable against itself, two different constants
+	eqs = append(eqs, gbEq{"int", &gbv{K: "ivar", I: 0}, &gbv{K: "ivar", I: 0}}, gbEq{"int", &gbv{K: "iint", I: 1}, &gbv{K: "iint", I: 2}})
+	w := newGBWorld(r.Intn(2) == 0, ni, nb)
+	goals := make([]gomini.Goal, len(eqs))
+	for k, e := range eqs {
+		if e.kind == "int" {
+			a, _ := w.slot(e.a).(*int)
+			b, _ := w.slot(e.b).(*int)
+			goals[k] = gomini.EqualO(a, b)
+		} else {
+			goals[k] = gomini.EqualO(w.rec(e.a), w.rec(e.b))
+		}
+	}
+	verdict := func(k int) string {
+		states, how := runGoal(goals[k], w.st, -1, 5*time.Second)
+		return fmt.Sprintf("%d state(s), %s", len(states), how)
+	}
+	want := make([]string, len(goals))
+	for k := range goals {
+		want[k] = verdict(k)
+	}
+	desc := fmt.Sprintf("EqualO on one shared state from 8 goroutines: %d equations over %d int variables and %d record variables", len(eqs), ni, nb)
+	begin(idx, desc)
+	type bad struct {
+		k   int
+		got string
+	}
+	var mu sync.Mutex
+	var bads []bad
+	var wg sync.WaitGroup
+	for g := 0; g < 8; g++ {
+		wg.Add(1)
+		go func(g int) {
+			defer wg.Done()
+			for round := 0; round < 30; round++ {
+				for j := range goals {
+					k := (j*(2*g+1) + g + round) % len(goals)
+					if got := verdict(k); got != want[k] {
+						mu.Lock()
+						if len(bads) < 5 {
+							bads = append(bads, bad{k, got})
+						}
+						mu.Unlock()
+					}
+				}
+			}
+		}(g)
+	}
+	wg.Wait()
+	rep.hist("shared state, concurrent EqualO")
+	for _, b := range bads {
+		rep.violate(idx, "shared-state-concurrent-equalo", desc, fmt.Sprintf("%s == %s alone: %s; concurrently with other EqualO on the same state: %s",
+			eqs[b.k].a.show(), eqs[b.k].b.show(), want[b.k], b.got))
+	}
 }
